@@ -94,7 +94,7 @@ func flip(t *rapid.T, b []byte, label string) {
 func be48(v *big.Int) []byte { out := make([]byte, 48); v.FillBytes(out); return out }
 
 func TestVerifyRequest(t *testing.T) {
-	s := rt.S("verify-request").SetRule("honest (request, blind, client key) triples from real clients, then one mutation: bit flip in each request field, signature spliced from another client / another blind / another request, (r, N-s), r or s in {0, N, N+1, 2^384-1}, wrong blind (other scalar, leading-zero re-encoding, empty), wrong client key (other client, negated point), malformed keys (not on curve, wrong length, uncompressed prefix); requests always carry a 96-byte signature (what the decoder produces). oracle: VerifyRequest==nil implies the independent predicate (crypto/ecdsa.Verify over the exact contents AND request key == harness-computed blinding of the client key); a call that errors or whose predicate is false makes no Put and leaves every stored state unchanged; unmutated triples must be accepted (health). non-trivial = mutated triple whose predicate is false; distinct by (request, blind, client key)")
+	s := rt.S("verify-request").SetRule("honest (request, blind, client key) triples from real clients, then one mutation: bit flip in each request field, signature spliced from another client / another blind / another request, (r, N-s), r or s in {0, N, N+1, 2^384-1}, wrong blind (other scalar, leading-zero re-encoding, empty, b+kN, all-ff / zero / N / N+1 / 66 bytes), wrong client key (other client, negated point), malformed keys (not on curve, wrong length, uncompressed prefix); requests always carry a 96-byte signature (what the decoder produces). oracle: VerifyRequest==nil implies the independent predicate (crypto/ecdsa.Verify over the exact contents AND request key == harness-computed blinding of the client key); a call that errors or whose predicate is false makes no Put and leaves every stored state unchanged; unmutated triples must be accepted (health). non-trivial = mutated triple whose predicate is false; distinct by (request, blind, client key)")
 	n := elliptic.P384().Params().N
 	rt.Check(t, 700, 120000, func(t *rapid.T) {
 		defer rt.Entropy(gen.Seed().Draw(t, "entropy"))()
@@ -147,7 +147,7 @@ func TestVerifyRequest(t *testing.T) {
 
 		class := gen.Pick(t, []string{"honest", "flip-requestkey", "flip-namekeyid", "flip-ciphertext", "flip-signature",
 			"sig-from-other-client", "sig-from-other-blind", "whole-request-other-blind", "sig-malleated", "sig-extreme",
-			"blind-other", "blind-leading-zero", "blind-empty", "clientkey-other", "clientkey-negated", "clientkey-malformed", "requestkey-malformed",
+			"blind-other", "blind-leading-zero", "blind-empty", "blind-plus-order", "blind-unusual-value", "clientkey-other", "clientkey-negated", "clientkey-malformed", "requestkey-malformed",
 			"ciphertext-other-request", "requestkey-other-client", "namekeyid-extended", "namekeyid-shortened", "ciphertext-extended", "ciphertext-shortened",
 			"requestkey-replaced-signed-by-blinded-key", "contents-changed-signed-by-blinded-key"}, "class")
 		switch class {
@@ -181,6 +181,13 @@ func TestVerifyRequest(t *testing.T) {
 			blind = append(make([]byte, rapid.IntRange(1, 4).Draw(t, "zeros")), blind...) // same scalar, other encoding
 		case "blind-empty":
 			blind = []byte{}
+		case "blind-plus-order":
+			// b + k*N: the same residue mod N, but another blind (the blinding factor is derived from the blind's bytes)
+			v := new(big.Int).SetBytes(blind)
+			v.Add(v, new(big.Int).Mul(n, big.NewInt(int64(gen.UniformRange(t, 1, 3, "k")))))
+			blind = v.Bytes()
+		case "blind-unusual-value":
+			blind = gen.Pick(t, [][]byte{bytes.Repeat([]byte{0xff}, 48), make([]byte, 48), n.Bytes(), new(big.Int).Add(n, big.NewInt(1)).Bytes(), {0}, {1}, bytes.Repeat([]byte{0xff}, 66)}, "value")
 		case "clientkey-other":
 			clientKey = append([]byte{}, otherClient.ClientKey()...)
 		case "clientkey-negated":
